@@ -3,7 +3,7 @@
 From Coq Require Import List ZArith NArith QArith Qcanon Bool String Ascii Permutation.
 Import ListNotations.
 Require Import UPV.Core.Expr UPV.Core.Eval UPV.Planning.Problem UPV.Planning.Sem UPV.Model.PddlExpr UPV.Model.PddlLex
-  UPV.Model.PddlEffect UPV.Proofs.PddlExpr_proofs UPV.Proofs.PddlEffect_proofs.
+  UPV.Model.PddlEffect UPV.Proofs.PddlExpr_proofs UPV.Proofs.PddlLex_proofs UPV.Proofs.PddlEffect_proofs.
 Local Open Scope string_scope.
 
 (* SEMANTICS of the normal form (what the reader rebuilds from the writer's effect text, see [norm_effs]: effects with
@@ -63,6 +63,40 @@ Theorem C18_effect_roundtrip :
 Proof. exact effects_roundtrip_full. Qed.
 Print Assumptions C18_effect_roundtrip.
 
+(* TEXT LEVEL: the text _write_untimed_effects really emits ("(and" + " f" / " (when c f)" / "(forall (vs) ...)" items, the
+   forall items WITHOUT a blank before their parenthesis) is left alone by the reader's lower-casing, tokenised to the
+   structural [print_effects] and read back by _add_effect as [norm_effs effs].  Hypotheses: those of
+   C18_effect_roundtrip + names are lexically valid tokens ([name_ok], as in C18_expr_text_roundtrip). *)
+Theorem C18_effect_text_roundtrip :
+  forall (simp : expr -> expr) (isb : N -> bool) (nm : naming) (E : env),
+    (forall f, PddlExpr.e_fl E (nm_fl nm f) = Some f) ->
+    (forall f, is_kw (nm_fl nm f) = false) ->
+    (forall o, e_obj E (nm_obj nm o) = Some o) ->
+    (forall o, PddlExpr.e_fl E (nm_obj nm o) = None) ->
+    (forall o, starts_q (nm_obj nm o) = false) ->
+    (forall p, e_par E (nm_par nm p) = Some p) ->
+    (forall v, e_var E (nm_var nm v) = Some v) ->
+    (forall p v, nm_par nm p <> nm_var nm v) ->
+    (forall t, e_ty E (nm_ty nm t) = Some t) ->
+    (forall t, starts_q (nm_ty nm t) = false) ->
+    (forall s q, parse_number s = Some q -> PddlExpr.e_fl E s = None /\ e_obj E s = None) ->
+    (forall f, is_eff_kw (nm_fl nm f) = false) ->
+    (forall f, (nm_fl nm f =? "#t") = false) ->
+    (forall o, (nm_obj nm o =? "#t") = false) ->
+    (forall t, (nm_ty nm t =? "#t") = false) ->
+    (forall f, name_ok (nm_fl nm f) = true) ->
+    (forall o, name_ok (nm_obj nm o) = true) ->
+    (forall p, name_ok (nm_par nm p) = true) ->
+    (forall v, name_ok (nm_var nm v) = true) ->
+    (forall t, name_ok (nm_ty nm t) = true) ->
+    forall (rewrite : bool) (effs : list effect),
+      forallb (pddl_eff_ok simp isb) effs = true ->
+      exists t, print_effects_text simp nm rewrite effs = Some t
+                /\ parse_effects_text simp E isb t = Some (norm_effs effs).
+Proof. exact effects_text_roundtrip_full. Qed.
+Print Assumptions C18_effect_text_roundtrip.
+
+
 (* a concrete instance with every shape: plain, when, forall, forall+when, a dropped effect, increase, a value whose
    normal form differs; the reader's breadth-first order is visible in the result *)
 Definition xe (f : N) (args : list expr) (v c : expr) (k : ekind) (vs : list (N * N)) (b : bool) : effect :=
@@ -102,3 +136,65 @@ Proof.
   split; [apply ex_effects_roundtrip; vm_compute; reflexivity|vm_compute; reflexivity].
 Qed.
 Print Assumptions C18_effect_nonvacuous.
+
+Example C18_effect_text_nonvacuous :
+  print_effects_text (fun x => x) ex_nm true ex_effs =
+    Some "(and (when (x0) (increase (x1 b3) 2))(forall (?v1 - t0) (not (x2 ?v1))) (x0)(forall (?v2 - t0) (when (x2 ?v2) (assign (x1 ?v2) (+ 1 (x1 ?v2))))) (x2 b3))"
+  /\ exists t, print_effects_text (fun x => x) ex_nm true ex_effs = Some t
+               /\ parse_effects_text (fun x => x) ex_env ex_isb t = Some (norm_effs ex_effs).
+Proof. split; [vm_compute; reflexivity|]. apply ex_effects_text_roundtrip. vm_compute. reflexivity. Qed.
+Print Assumptions C18_effect_text_nonvacuous.
+
+(* ======================================================================= one instantaneous action *)
+(* the typed parameter list ":parameters (?p - t ...)" is read back: the tokens are atoms, the grammar's typed list
+   ([parse_vars]) returns the names with their types and act.parameter finds every parameter *)
+Theorem C18_action_params_roundtrip :
+  forall (nm : naming) (E : env),
+    (forall p, e_par E (nm_par nm p) = Some p) ->
+    (forall t, e_ty E (nm_ty nm t) = Some t) ->
+    (forall t, starts_q (nm_ty nm t) = false) ->
+    forall ps, forallb is_atom (print_pars nm ps) = true
+               /\ exists nps, parse_vars E [] (print_pars nm ps) = Some nps
+                              /\ sequence (map (fun p => option_map (fun i => (i, snd p)) (e_par E (fst p))) nps) = Some ps.
+Proof. exact params_roundtrip. Qed.
+Print Assumptions C18_action_params_roundtrip.
+
+(* OPEN (stated, not proved; the three ingredients are proved: C18_action_params_roundtrip, C18_expr_roundtrip for the
+   conjuncts, C18_effect_roundtrip): the whole action.  Missing: the 0/1/n-conjunct cases of the "(and ...)" precondition
+   group, the assembly, the text-level layout of the "(:action ...)" block, and the correspondence for the block. *)
+Definition C18_action_roundtrip_goal : Prop :=
+  forall (simp : expr -> expr) (isb : N -> bool) (nm : naming) (E : env),
+    (forall f, PddlExpr.e_fl E (nm_fl nm f) = Some f) ->
+    (forall f, is_kw (nm_fl nm f) = false) ->
+    (forall o, e_obj E (nm_obj nm o) = Some o) ->
+    (forall o, PddlExpr.e_fl E (nm_obj nm o) = None) ->
+    (forall o, starts_q (nm_obj nm o) = false) ->
+    (forall p, e_par E (nm_par nm p) = Some p) ->
+    (forall v, e_var E (nm_var nm v) = Some v) ->
+    (forall p v, nm_par nm p <> nm_var nm v) ->
+    (forall t, e_ty E (nm_ty nm t) = Some t) ->
+    (forall t, starts_q (nm_ty nm t) = false) ->
+    (forall s q, parse_number s = Some q -> PddlExpr.e_fl E s = None /\ e_obj E s = None) ->
+    (forall f, is_eff_kw (nm_fl nm f) = false) ->
+    (forall f, (nm_fl nm f =? "#t") = false) ->
+    (forall o, (nm_obj nm o =? "#t") = false) ->
+    (forall t, (nm_ty nm t =? "#t") = false) ->
+    forall (rewrite empty_pre : bool) (a : paction),
+      pddl_action_ok simp isb a = true ->
+      exists x, print_action simp nm rewrite empty_pre a = Some (Some x)
+                /\ parse_action simp E isb x = Some (norm_action simp a).
+
+(* OPEN: the semantic corollary.  With Planning/Sem.v: for every interpretation I that binds the parameters,
+   all preconditions of [a] hold in I  <->  the precondition of [norm_action simp a] holds in I
+   (C18_expr_norm_preserves_eval + the simplifier's soundness on the preconditions, which is C11's theorem and would be a
+   hypothesis here), and the successor is the same (C18_effect_roundtrip_same_successor, already proved). *)
+Definition C18_action_same_behaviour_goal : Prop :=
+  forall (simp : expr -> expr) (isb : N -> bool) (sc : bool) (I : interp) (P : problem) (s : state) (a : paction)
+         (acts : list aeff),
+    (forall x v, eval sc x I = Some v -> eval sc (simp x) I = Some v) ->
+    pddl_action_ok simp isb a = true ->
+    (forall p, In p (pa_pre a) -> exists b, eval sc p I = Some (VBool b)) ->
+    forallb (holds sc I) (pa_pre a) = forallb (holds sc I) (pa_pre (norm_action simp a))
+    /\ (fired sc I (pa_effs a) = Some acts ->
+        exists acts', fired sc I (pa_effs (norm_action simp a)) = Some acts'
+                      /\ forall f args, spec_succ P s acts' f args = spec_succ P s acts f args).
